@@ -19,12 +19,23 @@ def _translate(s):
 
 
 def parse_path(d):
-    toks = d.split(" ")
+    """absolute SVG path data with the commands M, L, C and the shorthands H x / V y (returned as the equal L step)"""
+    toks = d.replace(",", " ").split()
     steps, i = [], 0
+    cur = [F("0"), F("0")]
     while i < len(toks):
         c = toks[i]
+        if c in ("H", "V"):
+            v = F(toks[i + 1])
+            pt = [v, cur[1]] if c == "H" else [cur[0], v]
+            steps.append(("L", pt))
+            cur = list(pt)
+            i += 2
+            continue
         n = {"M": 2, "L": 2, "C": 6}[c]
-        steps.append((c, [F(x) for x in toks[i + 1:i + 1 + n]]))
+        args = [F(x) for x in toks[i + 1:i + 1 + n]]
+        steps.append((c, args))
+        cur = list(args[-2:])
         i += 1 + n
     return steps
 
